@@ -91,6 +91,28 @@ def constructed(rng):
         b2 = rng.randrange(1, M // P10[k] + 1)
         add(G.fD(a, p), G.fD(sg(rng, b2), q))
         add(G.fD(sg(rng, M), p), G.fD(sg(rng, M // P10[k]), q))
+    # exact multiples on the branch where the dividend cannot be up-scaled: x = t * y with a divisor coefficient
+    # that carries q - p trailing zeros (remainder 0; every last digit of t), and the neighbours x +- 1 ulp
+    for _ in range(300):
+        p = rng.randrange(0, 18)
+        q = rng.randrange(p + 1, 19)
+        k = q - p
+        b1 = rng.getrandbits(rng.randrange(1, max(2, 120 - 4 * k))) + 1
+        b = b1 * P10[k]
+        if b > M:
+            continue
+        tmin = M // (b1 * P10[k]) + 1          # a = t * b1 must exceed M / 10^k
+        tmax = M // b1
+        if tmin > tmax:
+            continue
+        t = rng.randrange(tmin, tmax + 1)
+        t = t - t % 10 + rng.randrange(0, 10)
+        if not tmin <= t <= tmax:
+            continue
+        a = t * b1
+        for da in (0, 0, 1, -1):
+            if abs(a + da) <= M:
+                add(G.fD(sg(rng, a + da), p), G.fD(sg(rng, b), q))
     # integer dividends that cannot be up-scaled, huge divisors (step overflow with an int on the left)
     for _ in range(150):
         q = rng.randrange(1, 19)
